@@ -78,6 +78,8 @@ pub struct SvgCfg {
     /// with margin `.0`, renders another symbol (of version `.1`, or the symbol under test itself when None); then
     /// the margin is set to its final value. The output must be what a fresh builder would produce.
     pub warm: Option<(usize, Option<usize>)>,
+    /// order in which the setter groups are called (0 = documentation order), see `apply`
+    pub order: u8,
 }
 
 fn set_color<B: Builder>(b: &mut B, which: u8, c: &ColorSpec) {
@@ -99,42 +101,77 @@ impl SvgCfg {
         self.margin.unwrap_or(4)
     }
 
-    /// configure any renderer implementing the common Builder trait
+    /// configure any renderer implementing the common Builder trait. The nine setter groups are called in an order
+    /// derived from `order` (0 = the order of the documentation); the result must not depend on it. shape() calls are
+    /// one group and keep their relative order (they are an ordered list of layers by design).
     pub fn apply<B: Builder>(&self, b: &mut B) {
-        if let Some(m) = self.margin {
-            b.margin(m);
-        }
-        for (si, col) in &self.layers {
-            match col {
-                None => { b.shape(SHAPES[*si]); }
-                Some(ColorSpec::Rgb(x)) => { b.shape_color(SHAPES[*si], *x); }
-                Some(ColorSpec::Rgba(x)) => { b.shape_color(SHAPES[*si], *x); }
-                Some(ColorSpec::Css(x)) => { b.shape_color(SHAPES[*si], x.as_str()); }
+        let mut groups: Vec<usize> = (0..10).collect();
+        // deterministic permutation from `order` (Fisher-Yates with a small LCG)
+        let mut x = self.order as u64;
+        if x != 0 {
+            for i in (1..groups.len()).rev() {
+                x = x.wrapping_mul(6364136223846793005).wrapping_add(1442695040888963407);
+                groups.swap(i, (x >> 33) as usize % (i + 1));
             }
         }
-        if let Some(c) = &self.module_color {
-            set_color(b, 0, c);
-        }
-        if let Some(c) = &self.background {
-            set_color(b, 1, c);
-        }
-        if let Some(i) = &self.image {
-            b.image(i.clone());
-        }
-        if let Some(c) = &self.image_bg_color {
-            set_color(b, 2, c);
-        }
-        if let Some(s) = self.image_bg_shape {
-            b.image_background_shape(BG_SHAPES[s]);
-        }
-        if let Some(s) = self.image_size {
-            b.image_size(s);
-        }
-        if let Some(g) = self.image_gap {
-            b.image_gap(g);
-        }
-        if let Some((x, y)) = self.image_position {
-            b.image_position(x, y);
+        for g in groups {
+            match g {
+                0 => {
+                    if let Some(m) = self.margin {
+                        b.margin(m);
+                    }
+                }
+                1 => {
+                    for (si, col) in &self.layers {
+                        match col {
+                            None => { b.shape(SHAPES[*si]); }
+                            Some(ColorSpec::Rgb(x)) => { b.shape_color(SHAPES[*si], *x); }
+                            Some(ColorSpec::Rgba(x)) => { b.shape_color(SHAPES[*si], *x); }
+                            Some(ColorSpec::Css(x)) => { b.shape_color(SHAPES[*si], x.as_str()); }
+                        }
+                    }
+                }
+                2 => {
+                    if let Some(c) = &self.module_color {
+                        set_color(b, 0, c);
+                    }
+                }
+                3 => {
+                    if let Some(c) = &self.background {
+                        set_color(b, 1, c);
+                    }
+                }
+                4 => {
+                    if let Some(i) = &self.image {
+                        b.image(i.clone());
+                    }
+                }
+                5 => {
+                    if let Some(c) = &self.image_bg_color {
+                        set_color(b, 2, c);
+                    }
+                }
+                6 => {
+                    if let Some(s) = self.image_bg_shape {
+                        b.image_background_shape(BG_SHAPES[s]);
+                    }
+                }
+                7 => {
+                    if let Some(s) = self.image_size {
+                        b.image_size(s);
+                    }
+                }
+                8 => {
+                    if let Some(g) = self.image_gap {
+                        b.image_gap(g);
+                    }
+                }
+                _ => {
+                    if let Some((x, y)) = self.image_position {
+                        b.image_position(x, y);
+                    }
+                }
+            }
         }
     }
 
@@ -193,6 +230,7 @@ impl SvgCfg {
             "image_gap": self.image_gap,
             "image_position": self.image_position.map(|(x, y)| vec![x, y]),
             "warm": self.warm.map(|(m, v)| json!([m, v])),
+            "order": self.order,
         })
     }
 
@@ -214,6 +252,7 @@ impl SvgCfg {
         c.image_size = v.get("image_size").and_then(|x| x.as_f64());
         c.image_gap = v.get("image_gap").and_then(|x| x.as_f64());
         c.image_position = v.get("image_position").and_then(|x| x.as_array()).and_then(|a| Some((a.get(0)?.as_f64()?, a.get(1)?.as_f64()?)));
+        c.order = v.get("order").and_then(|x| x.as_u64()).unwrap_or(0) as u8;
         c.warm = v.get("warm").and_then(|x| x.as_array()).and_then(|a| Some((a.first()?.as_u64()? as usize, a.get(1).and_then(|x| x.as_u64()).map(|x| x as usize))));
         Some(c)
     }
